@@ -1089,6 +1089,7 @@ def weave(unit_path):
                 fw.enumerate_to_index()
             fw.rename_underscore_params()
             attrs = []
+            spec_files = []
             safety = list(info['props'])
             i += 1
             has_spec = False
@@ -1127,6 +1128,7 @@ def weave(unit_path):
                     fw.add_spec(sl, 1)
                     fw.tmpl_file = keep
                     has_spec = True
+                    spec_files.append(sarg)
                     info['includes'].append(sarg)
                 elif sd == 'entry':
                     fw.add_entry(blk, blk_line)
@@ -1199,7 +1201,7 @@ def weave(unit_path):
             info['rules'] |= fw.rules
             info['lost'] += fw.lost
             if d == 'stub' or any('external_body' in a_ for a_ in attrs):
-                info['stubs'].append(dict(qual=qual, file=rel, line=first_line))
+                info['stubs'].append(dict(qual=qual, file=rel, line=first_line, specfiles=list(spec_files), has_spec=has_spec))
             else:
                 info['functions'].append(dict(qual=qual, file=rel, line=first_line, out_start=start_line, out_end=end_line,
                                               safety=safety, contracted=has_spec, lost=list(fw.lost)))
